@@ -1123,6 +1123,8 @@ class WcParse(Generic[AnyStr]):
             if c == '[':
                 last_posix = self._handle_posix(i, result, end_range)
                 if last_posix:
+                    # The class ended any pending range
+                    end_range = 0
                     c = next(i)
                     continue
 
